@@ -569,6 +569,28 @@ def m_extend(ex, st, recv, args, kwargs, node):
     return [(st, const_sv(None))], []
 
 
+@method('list', 'remove')
+def m_remove(ex, st, recv, args, kwargs, node):
+    """lst.remove(x): deletes the first element equal to x, ValueError when there is none.  Element equality is value
+    equality for None / bool / int / str / bytes elements and identity for references (objects without __eq__)."""
+    a = va(recv.term)
+    st.notes.pop(('elems', tid(recv.term)), None)
+    old = st.L[a]
+    x = args[0].term
+    i = fresh('rm_i', IntS)
+    present = z3.Contains(old, z3.Unit(x))
+    st, absent = ex.fork(st, present, None)
+    raises = [ex.raised(absent, 'builtins:ValueError')] if absent is not None else []
+    if st is None:
+        return [], raises
+    j = fresh('rm_j', IntS)
+    st.assume(And(0 <= i, i < z3.Length(old), old[i] == x,
+                  z3.ForAll([j], Implies(And(0 <= j, j < i), old[j] != x), patterns=[old[j]])))
+    new = z3.Concat(z3.SubSeq(old, 0, i), z3.SubSeq(old, i + 1, z3.Length(old) - i - 1))
+    st.L = z3.Store(st.L, a, new)
+    return [(st, const_sv(None))], raises
+
+
 # ------------------------------------------------------------------------------------ dict methods
 @method('dict', 'get')
 def m_get(ex, st, recv, args, kwargs, node):
